@@ -22,6 +22,7 @@ pub fn alphabet(prog: &Prog) -> Vec<Action> {
         Action::of(Cmd::Continue),
         Action::of(Cmd::Goto(Loc::Abs(prog.image.origin()))),
         Action::of(Cmd::MoveMem(Loc::PcOff(2), 0xF025)),
+        Action::of(Cmd::MoveMem(Loc::PcOff(0), 0x1021)),
     ];
     // breakpoints at up to three interesting addresses of the program
     let mut addrs: Vec<u16> = Vec::new();
@@ -42,7 +43,7 @@ pub fn run(ctx: &Ctx) -> i32 {
     let _ = super::variant::measured();
     let progs = programs();
     let alphabets: Vec<Vec<Action>> = progs.iter().map(alphabet).collect();
-    let depth = ctx.tier.pick(7, 10);
+    let depth = ctx.tier.pick(6, 9);
     let raw_depth = ctx.tier.pick(4, 5);
     let roots: Vec<St> = (0..progs.len()).map(|i| St { tag: i as u32, hist: vec![], digest: i as u64 }).collect();
     let step = |acc: &mut Acc, s: &St| -> Vec<St> {
